@@ -1,2 +1,482 @@
-use crate::ops::Op;
-pub fn register(_ops: &mut Vec<Op>) {}
+//! Registry entries for the generic-width types PxE1<N>, PxE2<N>, N = 2..=32:
+//! C13 (arithmetic), C14 (conversions), C10 (order / neg / predicates).
+//! Inputs are N-bit right-aligned patterns; the closures left-align them (low 32-N bits zero).
+//! Results are the raw 32-bit words, expected value = N-bit oracle pattern << (32-N), so a
+//! result with non-zero low bits can never match.
+
+use crate::fast::IntMode;
+use crate::orf::{self, Bin};
+use crate::gen::Kind;
+use crate::gt::GT;
+use crate::ops::{Op, OutKind};
+use crate::ops_fixed::mask;
+use crate::orc;
+use crate::val::{Fmt, P16, P32, P8};
+use softposit::{PxE1, PxE2, P16E1, P32E2, P8E0, Q32E2};
+use std::cmp::Ordering;
+
+fn nm<T: GT>(s: &str) -> String {
+    format!("{}::{}", T::tname(), s)
+}
+#[inline(always)]
+fn sh<T: GT>() -> u32 {
+    32 - T::W
+}
+
+macro_rules! g_from_int {
+    ($ops:ident, $T:ident, $name:literal, $ifn:ident, $It:ty, $bits:expr, $signed:expr, $stub:expr) => {{
+        let mut o = Op::new(
+            nm::<$T>($name),
+            &["C14"],
+            &[Kind::Int { bits: $bits, signed: $signed, f: $T::F }],
+            OutKind::PatLeft($T::F),
+            |x, _, _| $T::$ifn(x as $It).tb(),
+        )
+        .oracle(orf::from_int($T::F, sh::<$T>(), $bits, $signed));
+        if $stub {
+            o = o.stub();
+        }
+        $ops.push(o);
+        let mut o = Op::new(
+            nm::<$T>(concat!("From<", stringify!($It), ">")),
+            &["C14"],
+            &[Kind::Int { bits: $bits, signed: $signed, f: $T::F }],
+            OutKind::PatLeft($T::F),
+            |x, _, _| <$T as From<$It>>::from(x as $It).tb(),
+        )
+        .oracle(orf::from_int($T::F, sh::<$T>(), $bits, $signed))
+        .weight(0.25);
+        if $stub {
+            o = o.stub();
+        }
+        $ops.push(o);
+    }};
+}
+
+macro_rules! g_to_int {
+    ($ops:ident, $T:ident, $name:literal, $ifn:ident, $It:ty, $bits:expr, $signed:expr) => {
+        $ops.push(
+            Op::new(nm::<$T>($name), &["C14"], &[Kind::Pat($T::F)], OutKind::Raw, |x, _, _| {
+                ($T::fb(x).$ifn() as u64) & mask($bits)
+            })
+            .oracle(orf::to_int($T::F, $bits, $signed)),
+        );
+        $ops.push(
+            Op::new(
+                nm::<$T>(concat!("Into<", stringify!($It), ">")),
+                &["C14"],
+                &[Kind::Pat($T::F)],
+                OutKind::Raw,
+                |x, _, _| (<$T as Into<$It>>::into($T::fb(x)) as u64) & mask($bits),
+            )
+            .oracle(orf::to_int($T::F, $bits, $signed))
+            .weight(0.25),
+        );
+    };
+}
+
+macro_rules! g_cmp {
+    ($ops:ident, $T:ident, $name:literal, $run:expr, $pred:expr) => {
+        $ops.push(
+            Op::new(
+                nm::<$T>($name),
+                &["C10"],
+                &[Kind::Pat($T::F), Kind::Pat($T::F)],
+                OutKind::Raw,
+                |x, y, _| {
+                    let f: fn($T, $T) -> bool = $run;
+                    f($T::fb(x), $T::fb(y)) as u64
+                },
+            )
+            .oracle(orf::cmp_pred($T::F, $pred))
+            .weight(0.25),
+        );
+    };
+}
+
+macro_rules! g_fixed_conv {
+    ($ops:ident, $T:ident, $P:ty, $PF:expr, $pname:literal, $from:ident, $to:ident, $pfrom:ident, $pto:ident) => {
+        // fixed -> generic: three spellings, all must give the N-bit rounding of the value
+        $ops.push(
+            Op::new(
+                nm::<$T>(concat!("from_", $pname)),
+                &["C14"],
+                &[Kind::Pat($PF)],
+                OutKind::PatLeft($T::F),
+                |x, _, _| {
+                    let p = <$P as crate::pt::PT>::fb(x);
+                    let a = $T::$from(p).tb();
+                    let b = <$T as From<$P>>::from(p).tb();
+                    let c = $T::$pto(p).tb();
+                    if a == b && b == c {
+                        a
+                    } else {
+                        0xdead_0000_0000 | (a ^ b ^ c)
+                    }
+                },
+            )
+            .oracle(orf::convert($PF, $T::F, sh::<$T>()))
+            .note("from_pX, From<PX> and PX::to_pxeN must all agree with the oracle"),
+        );
+        // generic -> fixed
+        $ops.push(
+            Op::new(
+                nm::<$T>(concat!("to_", $pname)),
+                &["C14"],
+                &[Kind::Pat($T::F)],
+                OutKind::Pat($PF),
+                |x, _, _| {
+                    use crate::pt::PT;
+                    let g = $T::fb(x);
+                    let a = g.$to().tb();
+                    let b = <$T as Into<$P>>::into(g).tb();
+                    let c = g.$pfrom().tb();
+                    if a == b && b == c {
+                        a
+                    } else {
+                        0xdead_0000_0000 | (a ^ b ^ c)
+                    }
+                },
+            )
+            .oracle(orf::convert($T::F, $PF, 0))
+            .note("to_pX, Into<PX> and PX::from_pxeN must all agree with the oracle"),
+        );
+    };
+}
+
+fn register_gt<T: GT>(ops: &mut Vec<Op>) {
+    let k = Kind::Pat(T::F);
+    let out = OutKind::PatLeft(T::F);
+    // ---------------------------------------------------------------- C13
+    ops.push(
+        Op::new(nm::<T>("add"), &["C13"], &[k, k], out, |x, y, _| (T::fb(x) + T::fb(y)).tb())
+            .oracle(orf::bin(T::F, sh::<T>(), Bin::Add)),
+    );
+    ops.push(
+        Op::new(nm::<T>("sub"), &["C13"], &[k, k], out, |x, y, _| (T::fb(x) - T::fb(y)).tb())
+            .oracle(orf::bin(T::F, sh::<T>(), Bin::Sub)),
+    );
+    ops.push(
+        Op::new(nm::<T>("mul"), &["C13"], &[k, k], out, |x, y, _| (T::fb(x) * T::fb(y)).tb())
+            .oracle(orf::bin(T::F, sh::<T>(), Bin::Mul)),
+    );
+    ops.push(
+        Op::new(nm::<T>("div"), &["C13"], &[k, k], out, |x, y, _| (T::fb(x) / T::fb(y)).tb())
+            .oracle(orf::bin(T::F, sh::<T>(), Bin::Div)),
+    );
+    ops.push(
+        Op::new(nm::<T>("op_assign"), &["C13"], &[k, k], OutKind::Raw, |x, y, _| {
+            // += -= *= /= digest against the binary operators (differential)
+            let (a, b) = (T::fb(x), T::fb(y));
+            let mut s = a;
+            s += b;
+            let mut d = a;
+            d -= b;
+            let mut m = a;
+            m *= b;
+            let mut q = a;
+            q /= b;
+            (s.tb() == (a + b).tb() && d.tb() == (a - b).tb() && m.tb() == (a * b).tb() && q.tb() == (a / b).tb()) as u64
+        })
+        .slow(|_, _, _| Some(1))
+        .weight(0.25)
+        .diff(),
+    );
+    ops.push(
+        Op::new(nm::<T>("mul_add"), &["C13"], &[k, k, k], out, |x, y, z| {
+            T::fb(x).i_mul_add(T::fb(y), T::fb(z)).tb()
+        })
+        .oracle(orf::fma(T::F, sh::<T>(), 0)),
+    );
+    ops.push(
+        Op::new(nm::<T>("mul_sub"), &["C13"], &[k, k, k], out, |x, y, z| {
+            T::fb(x).i_mul_sub(T::fb(y), T::fb(z)).tb()
+        })
+        .oracle(orf::fma(T::F, sh::<T>(), 1)),
+    );
+    ops.push(
+        Op::new(nm::<T>("sub_product"), &["C13"], &[k, k, k], out, |x, y, z| {
+            T::fb(z).i_sub_product(T::fb(x), T::fb(y)).tb()
+        })
+        .oracle(orf::fma(T::F, sh::<T>(), 2))
+        .note("inputs (a,b,c) -> c.sub_product(a,b)"),
+    );
+    if T::c_one().i_sqrt().is_some() {
+        ops.push(
+            Op::new(nm::<T>("sqrt"), &["C13"], &[k], out, |x, _, _| T::fb(x).i_sqrt().unwrap().tb())
+                .oracle(orf::sqrt(T::F, sh::<T>())),
+        );
+    }
+    ops.push(
+        Op::new(nm::<T>("round"), &["C13"], &[k], out, |x, _, _| T::fb(x).i_round().tb())
+            .oracle(orf::int_round(T::F, sh::<T>(), IntMode::NearestEven)),
+    );
+
+    // ---------------------------------------------------------------- C10 (generic types)
+    g_cmp!(ops, T, "op==", |a, c| a == c, |o| o == Ordering::Equal);
+    g_cmp!(ops, T, "op<", |a, c| a < c, |o| o == Ordering::Less);
+    g_cmp!(ops, T, "op<=", |a, c| a <= c, |o| o != Ordering::Greater);
+    g_cmp!(ops, T, "op>", |a, c| a > c, |o| o == Ordering::Greater);
+    g_cmp!(ops, T, "op>=", |a, c| a >= c, |o| o != Ordering::Less);
+    g_cmp!(ops, T, "eq", |a, c| a.i_eq(c), |o| o == Ordering::Equal);
+    g_cmp!(ops, T, "lt", |a, c| a.i_lt(c), |o| o == Ordering::Less);
+    g_cmp!(ops, T, "le", |a, c| a.i_le(c), |o| o != Ordering::Greater);
+    g_cmp!(ops, T, "gt", |a, c| a.i_gt(c), |o| o == Ordering::Greater);
+    g_cmp!(ops, T, "ge", |a, c| a.i_ge(c), |o| o != Ordering::Less);
+    ops.push(
+        Op::new(nm::<T>("cmp"), &["C10"], &[k, k], OutKind::Raw, |x, y, _| {
+            let a = orc::ord_code(T::fb(x).i_cmp(T::fb(y)));
+            let b = orc::ord_code(Ord::cmp(&T::fb(x), &T::fb(y)));
+            if a == b { a } else { 7 }
+        })
+        .oracle(orf::cmp_code(T::F))
+        .weight(0.25),
+    );
+    ops.push(
+        Op::new(nm::<T>("neg"), &["C10"], &[k], out, |x, _, _| (-T::fb(x)).tb())
+            .oracle(orf::neg(T::F, sh::<T>())),
+    );
+    ops.push(
+        Op::new(nm::<T>("is_zero/is_nar"), &["C10"], &[k], OutKind::Raw, |x, _, _| {
+            (T::fb(x).i_is_zero() as u64) | ((T::fb(x).i_is_nar() as u64) << 1)
+        })
+        .slow_boxed(orf::zero_nar_flags(T::F))
+        .weight(0.25),
+    );
+
+    // ---------------------------------------------------------------- C14: floats
+    ops.push(
+        Op::new(nm::<T>("from_f32"), &["C14"], &[Kind::F32(T::F)], out, |x, _, _| {
+            let f = f32::from_bits(x as u32);
+            let a = T::i_from_f32(f).tb();
+            let b = <T as From<f32>>::from(f).tb();
+            if a == b { a } else { 0xdead_0000_0000 | (a ^ b) }
+        })
+        .oracle(orf::from_f32(T::F, sh::<T>())),
+    );
+    ops.push(
+        Op::new(nm::<T>("from_f64"), &["C14"], &[Kind::F64(T::F)], out, |x, _, _| {
+            let f = f64::from_bits(x);
+            let a = T::i_from_f64(f).tb();
+            let b = <T as From<f64>>::from(f).tb();
+            if a == b { a } else { 0xdead_0000_0000 | (a ^ b) }
+        })
+        .oracle(orf::from_f64(T::F, sh::<T>())),
+    );
+    ops.push(
+        Op::new(nm::<T>("to_f64"), &["C14"], &[k], OutKind::Raw, |x, _, _| {
+            let a = orc::canon_f64(T::fb(x).i_to_f64().to_bits());
+            let b = orc::canon_f64(<T as Into<f64>>::into(T::fb(x)).to_bits());
+            if a == b { a } else { 0xdead }
+        })
+        .oracle(orf::to_f64(T::F)),
+    );
+    ops.push(
+        Op::new(nm::<T>("to_f32"), &["C14"], &[k], OutKind::Raw, |x, _, _| {
+            let a = orc::canon_f32(T::fb(x).i_to_f32().to_bits()) as u64;
+            let b = orc::canon_f32(<T as Into<f32>>::into(T::fb(x)).to_bits()) as u64;
+            if a == b { a } else { 0xdead }
+        })
+        .oracle(orf::to_f32(T::F)),
+    );
+    ops.push(
+        Op::new(nm::<T>("roundtrip_f64"), &["C14"], &[k], out, |x, _, _| {
+            T::i_from_f64(T::fb(x).i_to_f64()).tb()
+        })
+        .oracle(orf::identity(sh::<T>()))
+        .weight(0.5),
+    );
+
+    // ---------------------------------------------------------------- C14: integers
+    let e1 = T::ES == 1;
+    g_from_int!(ops, T, "from_i32", i_from_i32, i32, 32, true, false);
+    g_from_int!(ops, T, "from_i64", i_from_i64, i64, 64, true, e1);
+    g_from_int!(ops, T, "from_u32", i_from_u32, u32, 32, false, e1);
+    g_from_int!(ops, T, "from_u64", i_from_u64, u64, 64, false, false);
+    g_to_int!(ops, T, "to_i32", i_to_i32, i32, 32, true);
+    g_to_int!(ops, T, "to_u32", i_to_u32, u32, 32, false);
+    g_to_int!(ops, T, "to_i64", i_to_i64, i64, 64, true);
+    g_to_int!(ops, T, "to_u64", i_to_u64, u64, 64, false);
+
+    // ---------------------------------------------------------------- C14: fixed-width posits
+    g_fixed_conv!(ops, T, P8E0, P8, "p8e0", i_from_p8, i_to_p8, p8_from, p8_to);
+    g_fixed_conv!(ops, T, P16E1, P16, "p16e1", i_from_p16, i_to_p16, p16_from, p16_to);
+    g_fixed_conv!(ops, T, P32E2, P32, "p32e2", i_from_p32, i_to_p32, p32_from, p32_to);
+}
+
+/// Q32E2 <-> PxE2<N> (the quire of the generic es=2 family)
+fn register_quire_px<const N: u32>(ops: &mut Vec<Op>) {
+    use softposit::Quire;
+    let f = Fmt { n: N, es: 2 };
+    let k = Kind::Pat(f);
+    type G<const N: u32> = PxE2<N>;
+    ops.push(
+        Op::new(
+            format!("PxE2<{}>::From<Q32E2>(a*b+c)", N),
+            &["C14"],
+            &[k, k, k],
+            OutKind::PatLeft(f),
+            |x, y, z| {
+                let (a, b, c) = (G::<N>::fb(x), G::<N>::fb(y), G::<N>::fb(z));
+                let mut q = <Q32E2 as Quire<G<N>>>::from_posit(c);
+                <Q32E2 as Quire<G<N>>>::add_product(&mut q, a, b);
+                let r1 = <G<N> as From<&Q32E2>>::from(&q).tb();
+                let r2 = <Q32E2 as Quire<G<N>>>::to_posit(&q).tb();
+                let r3 = <G<N> as From<Q32E2>>::from(q).tb();
+                if r1 == r2 && r2 == r3 {
+                    r1
+                } else {
+                    0xdead_0000_0000 | (r1 ^ r2 ^ r3)
+                }
+            },
+        )
+        .oracle(orf::fma(f, 32 - N, 0))
+        .note("quire made from c, += a*b through Quire<PxE2<N>>, rounded to N bits by three spellings"),
+    );
+    ops.push(
+        Op::new(
+            format!("PxE2<{}>::Q32E2 c - a*b, ops spellings", N),
+            &["C14"],
+            &[k, k, k],
+            OutKind::PatLeft(f),
+            |x, y, z| {
+                let (a, b, c) = (G::<N>::fb(x), G::<N>::fb(y), G::<N>::fb(z));
+                let mut q = <Q32E2 as From<G<N>>>::from(c);
+                <Q32E2 as Quire<G<N>>>::sub_product(&mut q, a, b);
+                let mut q2 = Q32E2::init();
+                q2 += c;
+                q2 -= (a, b);
+                if q.to_bits() != q2.to_bits() {
+                    return 0xdead_0000_0001;
+                }
+                <G<N> as From<&Q32E2>>::from(&q).tb()
+            },
+        )
+        .oracle(orf::fma(f, 32 - N, 2))
+        .weight(0.5),
+    );
+}
+
+/// generic <-> generic width / exponent-size conversions for one (M, N) pair
+#[cfg_attr(not(feature = "pairs"), allow(dead_code))]
+fn register_pair<const M: u32, const N: u32>(ops: &mut Vec<Op>) {
+    let f1m = Fmt { n: M, es: 1 };
+    let f2m = Fmt { n: M, es: 2 };
+    let f1n = Fmt { n: N, es: 1 };
+    let f2n = Fmt { n: N, es: 2 };
+    // PxE2<M> -> PxE2<N>
+    ops.push(
+        Op::new(format!("PxE2<{}>->PxE2<{}>", M, N), &["C14"], &[Kind::Pat(f2m)], OutKind::PatLeft(f2n), |x, _, _| {
+            PxE2::<N>::from_pxe2::<M>(PxE2::<M>::fb(x)).tb()
+        })
+        .oracle(orf::convert(f2m, f2n, 32 - N))
+        .weight(0.05),
+    );
+    // PxE2<M> -> PxE1<N>: three spellings
+    ops.push(
+        Op::new(format!("PxE2<{}>->PxE1<{}>", M, N), &["C14"], &[Kind::Pat(f2m)], OutKind::PatLeft(f1n), |x, _, _| {
+            let g = PxE2::<M>::fb(x);
+            let a = PxE1::<N>::from_pxe2::<M>(g).tb();
+            let b = g.to_pxe1::<N>().tb();
+            let c = <PxE1<N> as From<PxE2<M>>>::from(g).tb();
+            if a == b && b == c { a } else { 0xdead_0000_0000 | (a ^ b ^ c) }
+        })
+        .oracle(orf::convert(f2m, f1n, 32 - N))
+        .weight(0.05),
+    );
+    // PxE1<M> -> PxE2<N>: three spellings
+    ops.push(
+        Op::new(format!("PxE1<{}>->PxE2<{}>", M, N), &["C14"], &[Kind::Pat(f1m)], OutKind::PatLeft(f2n), |x, _, _| {
+            let g = PxE1::<M>::fb(x);
+            let a = PxE2::<N>::from_pxe1::<M>(g).tb();
+            let b = g.to_pxe2::<N>().tb();
+            let c = <PxE2<N> as From<PxE1<M>>>::from(g).tb();
+            if a == b && b == c { a } else { 0xdead_0000_0000 | (a ^ b ^ c) }
+        })
+        .oracle(orf::convert(f1m, f2n, 32 - N))
+        .weight(0.05),
+    );
+}
+
+macro_rules! reg_n {
+    ($n:tt, $ops:ident) => {
+        register_gt::<PxE1<$n>>($ops);
+        register_gt::<PxE2<$n>>($ops);
+        register_quire_px::<$n>($ops);
+    };
+}
+macro_rules! pair_inner {
+    ($n:tt, $m:tt, $ops:ident) => {
+        register_pair::<$m, $n>($ops);
+    };
+}
+macro_rules! pair_outer {
+    ($m:tt, $ops:ident) => {
+        crate::all_n!(pair_inner, $m, $ops);
+    };
+}
+
+pub fn register(ops: &mut Vec<Op>) {
+    crate::all_n!(reg_n, ops);
+    #[cfg(feature = "pairs")]
+    {
+        crate::all_n!(pair_outer, ops);
+    }
+    // bit-for-bit agreement of the full-width instantiations with the fixed types (differential)
+    let k32 = Kind::Pat(P32);
+    let k16 = Kind::Pat(P16);
+    macro_rules! same2 {
+        ($name:literal, $k:expr, $a:expr, $b:expr) => {
+            ops.push(
+                Op::new($name, &["C13"], &[$k, $k], OutKind::Raw, |x, y, _| {
+                    let f: fn(u64, u64) -> u64 = $a;
+                    f(x, y)
+                })
+                .slow(|x, y, _| {
+                    let g: fn(u64, u64) -> u64 = $b;
+                    Some(g(x, y))
+                })
+                .diff(),
+            );
+        };
+    }
+    type G32 = PxE2<32>;
+    type G16 = PxE1<16>;
+    let p32 = |x: u64| P32E2::from_bits(x as u32);
+    let _ = p32;
+    same2!("PxE2<32>+ vs P32E2+", k32, |x, y| (G32::fb(x) + G32::fb(y)).tb(), |x, y| (P32E2::from_bits(x as u32) + P32E2::from_bits(y as u32)).to_bits() as u64);
+    same2!("PxE2<32>- vs P32E2-", k32, |x, y| (G32::fb(x) - G32::fb(y)).tb(), |x, y| (P32E2::from_bits(x as u32) - P32E2::from_bits(y as u32)).to_bits() as u64);
+    same2!("PxE2<32>* vs P32E2*", k32, |x, y| (G32::fb(x) * G32::fb(y)).tb(), |x, y| (P32E2::from_bits(x as u32) * P32E2::from_bits(y as u32)).to_bits() as u64);
+    same2!("PxE2<32>/ vs P32E2/", k32, |x, y| (G32::fb(x) / G32::fb(y)).tb(), |x, y| (P32E2::from_bits(x as u32) / P32E2::from_bits(y as u32)).to_bits() as u64);
+    same2!("PxE2<32>sqrt/round vs P32E2", k32,
+        |x, y| G32::fb(x).i_sqrt().unwrap().tb() ^ (G32::fb(y).i_round().tb() << 32),
+        |x, y| (P32E2::from_bits(x as u32).sqrt().to_bits() as u64) ^ ((P32E2::from_bits(y as u32).round().to_bits() as u64) << 32));
+    same2!("PxE1<16>+ vs P16E1+", k16, |x, y| (G16::fb(x) + G16::fb(y)).tb(), |x, y| ((P16E1::from_bits(x as u16) + P16E1::from_bits(y as u16)).to_bits() as u64) << 16);
+    same2!("PxE1<16>- vs P16E1-", k16, |x, y| (G16::fb(x) - G16::fb(y)).tb(), |x, y| ((P16E1::from_bits(x as u16) - P16E1::from_bits(y as u16)).to_bits() as u64) << 16);
+    same2!("PxE1<16>* vs P16E1*", k16, |x, y| (G16::fb(x) * G16::fb(y)).tb(), |x, y| ((P16E1::from_bits(x as u16) * P16E1::from_bits(y as u16)).to_bits() as u64) << 16);
+    same2!("PxE1<16>/ vs P16E1/", k16, |x, y| (G16::fb(x) / G16::fb(y)).tb(), |x, y| ((P16E1::from_bits(x as u16) / P16E1::from_bits(y as u16)).to_bits() as u64) << 16);
+    same2!("PxE1<16>round vs P16E1", k16, |x, _| G16::fb(x).i_round().tb(), |x, _| (P16E1::from_bits(x as u16).round().to_bits() as u64) << 16);
+    ops.push(
+        Op::new("PxE2<32>fused vs P32E2", &["C13"], &[k32, k32, k32], OutKind::Raw, |x, y, z| {
+            let (a, b, c) = (G32::fb(x), G32::fb(y), G32::fb(z));
+            crate::rng::mix64(a.i_mul_add(b, c).tb() ^ (a.i_mul_sub(b, c).tb() << 20) ^ (c.i_sub_product(a, b).tb() << 40))
+        })
+        .slow(|x, y, z| {
+            let (a, b, c) = (P32E2::from_bits(x as u32), P32E2::from_bits(y as u32), P32E2::from_bits(z as u32));
+            Some(crate::rng::mix64((a.mul_add(b, c).to_bits() as u64) ^ ((a.mul_sub(b, c).to_bits() as u64) << 20) ^ ((c.sub_product(a, b).to_bits() as u64) << 40)))
+        })
+        .diff(),
+    );
+    ops.push(
+        Op::new("PxE1<16>fused vs P16E1", &["C13"], &[k16, k16, k16], OutKind::Raw, |x, y, z| {
+            let (a, b, c) = (G16::fb(x), G16::fb(y), G16::fb(z));
+            crate::rng::mix64(a.i_mul_add(b, c).tb() ^ (a.i_mul_sub(b, c).tb() << 20) ^ (c.i_sub_product(a, b).tb() << 40))
+        })
+        .slow(|x, y, z| {
+            let (a, b, c) = (P16E1::from_bits(x as u16), P16E1::from_bits(y as u16), P16E1::from_bits(z as u16));
+            let l = |p: P16E1| (p.to_bits() as u64) << 16;
+            Some(crate::rng::mix64(l(a.mul_add(b, c)) ^ (l(a.mul_sub(b, c)) << 20) ^ (l(c.sub_product(a, b)) << 40)))
+        })
+        .diff(),
+    );
+}
